@@ -67,7 +67,14 @@ func genBroadTransferNoPassthrough(t *rapid.T, w *world.World) kit.Transfer {
 
 func genMixedPacket(t *rapid.T, w *world.World) kit.Transfer {
 	tr := genBroadTransfer(t, w)
-	switch pick(t, "packet/class", []string{"orbiter", "orbiter", "orbiter", "orbiter", "orbiter", "orbiter", "receiver", "receiver", "mutated", "garbage", "spelled", "crossed-token"}) {
+	switch pick(t, "packet/class", []string{"orbiter", "orbiter", "orbiter", "orbiter", "orbiter", "orbiter", "receiver", "receiver", "mutated", "garbage", "spelled", "crossed-token", "unregistered-action"}) {
+	case "unregistered-action":
+		// ACTION_SWAP can be paused and unpaused but the application registers no controller for it
+		if kit.Chance(t, "unregistered/before", 50) {
+			tr.Actions = append([]kit.Action{{Kind: "swap"}}, tr.Actions...)
+		} else {
+			tr.Actions = append(tr.Actions, kit.Action{Kind: "swap"})
+		}
 	case "crossed-token":
 		// small amounts, so that a balance left on the orbiter account by a deposit could pay for it
 		tr.Route, _ = kit.CrossedTokenRoute(t, w, "crossed", tr.Denom)
